@@ -126,14 +126,14 @@ extern "C" void __tsan_acquire(void *addr); extern "C" void __tsan_release(void 
 NOTSAN static void futex_wait(std::atomic<int> *a) { int *w = (int *)a; while (__atomic_load_n(w, __ATOMIC_RELAXED) == 0) syscall(SYS_futex, w, FUTEX_WAIT, 0, NULL, NULL, 0); __atomic_store_n(w, 0, __ATOMIC_RELAXED); }
 NOTSAN static void futex_wake(std::atomic<int> *a) { int *w = (int *)a; __atomic_store_n(w, 1, __ATOMIC_RELAXED); syscall(SYS_futex, w, FUTEX_WAKE, 1, NULL, NULL, 0); }
 
-static bool eventfd_readable(); static bool stdin_readable();
+static bool eventfd_readable(); static bool stdin_readable(); static bool sock_readable();
 static bool wakeable(Th *t) {
   switch (t->st) {
   case RUNNABLE: return true;
   case B_MUTEX: return mxs[t->obj].owner == -1;
   case B_COND: return t->signaled && mxs[t->cond_mutex].owner == -1;
   case B_JOIN: return ths[t->join_target]->st == DONE;
-  case B_EPOLL: return eventfd_readable();
+  case B_EPOLL: return eventfd_readable() || sock_readable();
   case B_SELECT: return stdin_readable();
   default: return false;
   }
@@ -312,29 +312,41 @@ extern "C" int clock_nanosleep(clockid_t, int flags, const struct timespec *req,
 extern "C" int usleep(useconds_t us) { return do_sleep((int64_t)us * 1000); }
 
 // ------------------------------------------------------------------ eventfd / epoll / stdin
-static const int FD_EVENT = 900, FD_EPOLL = 901;
+static const int FD_EVENT = 900, FD_EPOLL = 901, FD_SOCK = 902;
 static uint64_t efd_counter = 0;
+// one more descriptor in the set: a "socket" that an operation makes readable and that stays readable until it is read
+// (level-triggered); what the code under test registered for it comes back in its events
+static bool sock_registered = false, sock_ready = false; static epoll_data_t sock_data;
+static bool sock_readable() { return sock_registered && sock_ready; }
 static std::deque<std::string> stdin_chunks; static bool stdin_eof = false;
 static bool eventfd_readable() { return efd_counter != 0; }
 static bool stdin_readable() { return !stdin_chunks.empty() || stdin_eof; }
 extern "C" int eventfd(unsigned int init, int) { efd_counter = init; return FD_EVENT; }
 extern "C" int epoll_create1(int) { return FD_EPOLL; }
-extern "C" int epoll_ctl(int, int, int, struct epoll_event *) { return 0; }
+extern "C" int epoll_ctl(int, int op, int fd, struct epoll_event *e) {
+  if (fd == FD_SOCK) { if (op == EPOLL_CTL_DEL) sock_registered = false; else if (e) { sock_registered = true; sock_data = e->data; } }
+  return 0;
+}
 extern "C" int epoll_wait(int, struct epoll_event *out, int maxev, int timeout_ms) {
   if (!sim_on) return 0;
   yield_point();
   Th *me = ths[my_id];
-  if (!efd_counter) {
+  if (!efd_counter && !sock_readable()) {
     if (timeout_ms == 0) return 0;
     me->st = B_EPOLL; me->deadline = timeout_ms < 0 ? -1 : vns + (int64_t)timeout_ms * 1000000LL;
     schedule();
     bool to = me->timed_out; me->timed_out = false;
-    if (to && !efd_counter) return 0;
+    if (to && !efd_counter && !sock_readable()) return 0;
   }
   if (maxev < 1) return 0;
-  memset(&out[0], 0, sizeof out[0]);
-  out[0].events = EPOLLIN; out[0].data.fd = FD_EVENT;
-  return 1;
+  // the order in which ready descriptors are reported is the kernel's business: decided by the schedule's generator
+  int n = 0; bool sock_first = sock_readable() && efd_counter && (rnd() & 1);
+  for (int pass = 0; pass < 2 && n < maxev; pass++) {
+    bool want_sock = (pass == 0) == sock_first;
+    if (want_sock && sock_readable()) { memset(&out[n], 0, sizeof out[n]); out[n].events = EPOLLIN; out[n].data = sock_data; n++; }
+    else if (!want_sock && efd_counter) { memset(&out[n], 0, sizeof out[n]); out[n].events = EPOLLIN; out[n].data.fd = FD_EVENT; n++; }
+  }
+  return n;
 }
 extern "C" ssize_t read(int fd, void *buf, size_t n) {
   resolve();
@@ -421,15 +433,23 @@ static void run_prog(int idx) {
   for (Op &o : p.ops) {
     const std::string &n = o.name;
     if (n == "post") { int r = async_runtime_post_completion(rt, (uintptr_t)atol(o.a[0].c_str()), (uintptr_t)atol(o.a[1].c_str())); ev("post %s %s ret=%d", o.a[0].c_str(), o.a[1].c_str(), r); }
+    else if (n == "sockadd") { int r = async_runtime_add(rt, FD_SOCK, EVENT_READ, (void *)&sock_data); ev("sockadd ret=%d", r); }
+    else if (n == "ready") { yield_point(); sock_ready = true; ev("ready"); yield_point(); }
     else if (n == "wakeup") { int r = async_runtime_wakeup(rt); ev("wakeup ret=%d", r); }
     else if (n == "wait") {
-      io_event_t evs[16]; struct timeval tv; long ms = atol(o.a[0].c_str()); int maxev = atoi(o.a[1].c_str());
+      static io_event_t evs[16];       // (the backend's array is static as well: what a wait does not write stays from the wait before)
+      struct timeval tv; long ms = atol(o.a[0].c_str()); int maxev = atoi(o.a[1].c_str());
       tv.tv_sec = ms / 1000; tv.tv_usec = (ms % 1000) * 1000;
       int64_t t0 = vns;
       ev("wait_call ms=%ld pending=%d", ms, efd_counter != 0);
       int r = async_runtime_wait(rt, evs, maxev > 16 ? 16 : maxev, ms < 0 ? NULL : &tv);
       std::string s;
-      for (int i = 0; i < r; i++) { char b[96]; snprintf(b, sizeof b, " %lu:%lu", (unsigned long)evs[i].completion_key, (unsigned long)evs[i].bytes_transferred); s += b; }
+      for (int i = 0; i < r; i++) {
+        char b[96];
+        if (evs[i].context == (void *)&sock_data) { snprintf(b, sizeof b, " io=%lu=%lu", (unsigned long)evs[i].completion_key, (unsigned long)evs[i].bytes_transferred); sock_ready = false; stats["io_events"]++; }
+        else snprintf(b, sizeof b, " %lu:%lu", (unsigned long)evs[i].completion_key, (unsigned long)evs[i].bytes_transferred);
+        s += b;
+      }
       ev("wait ms=%ld ret=%d waited_ns=%lld%s", ms, r, (long long)(vns - t0), s.c_str());
     }
     else if (n == "sleep") { struct timespec ts; long us = atol(o.a[0].c_str()); ts.tv_sec = us / 1000000; ts.tv_nsec = (us % 1000000) * 1000; nanosleep(&ts, NULL); }
